@@ -1841,8 +1841,42 @@ impl HttpsProxy {
         let len = self.listeners.len();
 
         let remove_address = remove.address.into();
+        let mut removed_tokens: Vec<Token> = Vec::new();
+        for (token, listener) in self.listeners.iter() {
+            if listener.borrow().address != remove_address {
+                continue;
+            }
+            removed_tokens.push(*token);
+            // stop listening: sessions may keep the listener alive through their
+            // own reference, its socket must not outlive the slab entry
+            if let Some(mut sock) = listener.borrow_mut().listener.take() {
+                if let Err(e) = self.registry.deregister(&mut sock) {
+                    error!(
+                        "{} error deregistering HTTPS listen socket({:?}): {:?}",
+                        log_module_context!(),
+                        sock,
+                        e
+                    );
+                }
+            }
+        }
         self.listeners
             .retain(|_, listener| listener.borrow().address != remove_address);
+        // Free the listen token's slab entry, as DeactivateListener does (see
+        // `HttpProxy::remove_listener`).
+        let mut sessions = self.sessions.borrow_mut();
+        for token in removed_tokens {
+            // a deactivated listener gave its slot back already and the key may
+            // have been reused since: only a listen entry of our kind is ours
+            if sessions
+                .slab
+                .get(token.0)
+                .is_some_and(|s| s.borrow().protocol() == Protocol::HTTPSListen)
+            {
+                sessions.slab.remove(token.0);
+            }
+        }
+        drop(sessions);
 
         if !self.listeners.len() < len {
             info!(
